@@ -255,6 +255,30 @@ def pipeline(ctx):
         finally:
             uc.kill_agent(home)
             w.cleanup()
+    # (a') the upstream failure is gpg itself: it takes all its input, emits the beginning of the ciphertext and is killed by
+    # a signal, or exits non-zero - only its wait status tells
+    for i, how in enumerate(['kill -KILL $$', 'exit 3'] if ctx.tier == 'quick' else ['kill -KILL $$', 'exit 3', 'kill -SEGV $$', 'exit 1']):
+        w, g, b, bdir = c04.make_backup(ctx, 1730 + i, random.Random(ctx.seed * 13 + i), big=50000)
+        home = uc.make_gnupghome(w.base)
+        try:
+            d = os.path.join(w.base, 'fakebin')
+            os.makedirs(d, exist_ok=True)
+            with open(os.path.join(d, 'gpg'), 'w') as f:
+                f.write('#!/bin/bash\n/usr/bin/gpg "$@" > %s/out; head -c 16400 %s/out; %s\n' % (d, d, how))
+            os.chmod(os.path.join(d, 'gpg'), 0o755)
+            o = core.run_lines(core.harness_exe(ctx), [core.req('upbackup', {'backup_path': bdir, 'group': g, 'name': b, 'passphrase': 'pw', 'max': [None, 4096][i % 2],
+                                                                           'chunked': i % 2 == 0, 'out': os.path.join(w.base, 'cipher.bin')})],
+                               env=dict(os.environ, GNUPGHOME=home, PATH=d + ':' + os.environ.get('PATH', '/usr/bin:/bin')), timeout=300)[0]
+            case = {'kind': 'pipeline-gpg-failure', 'how': how}
+            stats['gpg_failure_runs'] = stats.get('gpg_failure_runs', 0) + 1
+            if not isinstance(o, dict):
+                ctx.violation('runtime', 'harness failure: %s' % str(o)[:200], {'case': case}, found_input=False)
+            elif o.get('final') is not None or o.get('result') == 'ok':
+                ctx.violation('property', 'gpg failed (%s) after %d bytes but the sequence of bodies was finalised with %s instead of ending with the error'
+                              % (how, o.get('total', -1), o.get('final')), {'case': case, 'result': o.get('result')})
+        finally:
+            uc.kill_agent(home)
+            w.cleanup()
     for i, mx in enumerate([None, 3 * 1024 * 1024 + 11] if ctx.tier == 'quick' else [None, 1 << 20, 4 * 1024 * 1024, 4 * 1024 * 1024 + 1, 5000001]):
         w, g, b, bdir = c04.make_backup(ctx, 1750 + i, random.Random(ctx.seed * 11 + i), big=4 * 1024 * 1024 + 600000)
         home = uc.make_gnupghome(w.base)
